@@ -70,3 +70,13 @@ T("C15", "twin-artifact-start-early-branches", "artifact.py", _AK_START, "    if
 # restart position held in a temporary
 T("C15", "twin-restart-through-temporary", "utils.py", "            p = d.find(needle, p + 1)\n", "            start = p + 1\n            p = d.find(needle, start)\n")
 M("C15", "restart-temporary-at-the-match", "utils.py", "            p = d.find(needle, p + 1)\n", "            start = p if p > 0 else 0\n            p = d.find(needle, start)\n", "C15.R4")
+
+# round 8 (C15o): the loop header as an exit - a short read is not the end of the file
+_SR = _OLD.replace("    while True:\n        pos = fp.tell()", "    block_size = io.DEFAULT_BUFFER_SIZE\n    eof = False\n    while not eof:\n        pos = fp.tell()") \
+    .replace("        block = fp.read(io.DEFAULT_BUFFER_SIZE)\n        if not block:\n            break\n",
+             "        block = fp.read(block_size)\n        if not block:\n            break\n        eof = len(block) < block_size\n")
+M("C15", "short-read-flag-ends-the-scan", "utils.py", _OLD, _SR, "C15.R4")
+M("C15", "short-read-flag-ends-the-scan-positive-flag", "utils.py", _OLD,
+  _SR.replace("eof = False", "more = True").replace("while not eof:", "while more:").replace("eof = len(block) < block_size", "more = len(block) >= block_size"), "C15.R4")
+T("C15", "twin-header-flag-for-empty-read", "utils.py", _OLD,
+  _SR.replace("        if not block:\n            break\n        eof = len(block) < block_size\n", "        if not block:\n            eof = True\n            continue\n"))
